@@ -8,7 +8,7 @@ p = [json.loads(l) for l in open('/verif/properties.jsonl') if l.strip()]
 d = [x for x in p if x['id'] == pid][0]
 anch = ', '.join(d['anchors']['files'])
 t = open('/tmp/seed_prompt_C02.txt').read() if False else None
-txt = f"""You are a software engineer helping to evaluate a verification effort by "seeding" a realistic bug. You work ONLY inside the scratch git worktree /tmp/seedwt_{tag} (a checkout of the Go project Semafind/semadb, a multi-index vector search engine over bbolt) and write your deliverables to /tmp/seedout_{tag}/. Do NOT read, list or use anything under /verif or /root/.vp, and do not touch /repo itself. Use temporary file names that contain "{tag}" (other engineers work in /tmp at the same time). Go environment (offline): `export GOFLAGS=-mod=mod GOPROXY=off` and nothing else; the package internal/loadhdf5 does not build here (missing C header) — ignore it; run tests per package, e.g. `cd /tmp/seedwt_{tag} && go test -count=1 ./shard/... ./cluster/... ./utils/... ./models/... ./diskstore/... ./conversion/... ./distance/... ./httpapi/...` (always under `timeout 600`).
+txt = f"""You are a software engineer helping to evaluate a verification effort by "seeding" a realistic bug. You work ONLY inside the scratch git worktree /tmp/seedwt_{tag} (a checkout of the Go project Semafind/semadb, a multi-index vector search engine over bbolt) and write your deliverables to /tmp/seedout_{tag}/. Do NOT read, list or use anything under /verif or /root/.vp, and do not touch /repo itself. Use temporary file names that contain "{tag}" (other engineers work in /tmp at the same time). Go environment (offline): `export GOFLAGS=-mod=mod GOPROXY=off` and nothing else; the package internal/loadhdf5 does not build here (missing C header) — ignore it; run tests per package, e.g. `cd /tmp/seedwt_{tag} && go test -count=1 ./shard/... ./cluster/... ./utils/... ./models/... ./diskstore/... ./conversion/... ./distance/... ./httpapi/...` (always under `timeout 900`; the machine is shared and may be loaded: if the combined run times out, run the packages one group at a time). Do NOT use `git stash` (the stash is shared between all worktrees of the repository and other engineers use it at the same time): to test without your change use `git apply -R <your patch>` and re-apply it with `git apply`.
 
 The property the project is supposed to satisfy:
 
